@@ -95,7 +95,7 @@ func buildBase(env *storerun.Env, base map[string]any) error {
 			}
 		}
 		for _, id := range ids {
-			if err := S.People.Update(ctx, mk(id, true), boltz.MapFieldChecker{"boss": struct{}{}}); err != nil {
+			if err := S.People.Update(ctx, mk(id, true), boltz.MapFieldChecker{schema.KBoss: struct{}{}}); err != nil {
 				return fmt.Errorf("boss of %s: %w", id, err)
 			}
 		}
@@ -140,7 +140,7 @@ func corrupt(env *storerun.Env, corr []map[string]any) error {
 			case "bAdd":
 				err = boltz.GetOrCreatePath(tx, "stores", "people", s("t"), "reports").Put(typedKey(s("id")), nil)
 			case "fkSet":
-				err = boltz.Path(tx, "stores", "people", s("id")).Put([]byte("boss"), typedKey(s("t")))
+				err = boltz.Path(tx, "stores", "people", s("id")).Put([]byte(schema.KBoss), typedKey(s("t")))
 			case "lAddP":
 				err = boltz.GetOrCreatePath(tx, "stores", "people", s("p"), "teams").Put(typedKey(s("t")), nil)
 			case "lDelP":
